@@ -8,6 +8,7 @@ package single
 
 //@ func (bq *BatchQueue) AddBatch(ctx, batch) (err)
 //@   property C10
+//@   property C11:append,prefix-kept,reject-clean,full,bound,wal-has,kind:crash
 //@   requires [wiring] bq.db != nil
 //@   observe put := call Put
 //@   modifies bq.queue, durable bq.db.kv[WalKey(batch.Transactions)], durable bq.db.kvHas[WalKey(batch.Transactions)], durable bq.db.size
@@ -50,7 +51,7 @@ package single
 //@   loop 1 invariant [decodes-the-record] um.count <= 1 && (um.count == 1 ==> um.arg0 == result.Value)
 
 //@ func (c *Sequencer) SubmitBatchTxs(ctx, req) (resp, err)
-//@   property C10
+//@   property C10 C11
 //@   requires [wiring] c.queue != nil && c.queue.db != nil && c.logger != nil
 //@   observe add := call AddBatch
 //@   modifies c.queue.queue, durable c.queue.db.kv, durable c.queue.db.kvHas, durable c.queue.db.size
